@@ -382,7 +382,7 @@ XML_CORE = ["attrs", "quote", "escape", "space", "optattrs"]
 def plan_xml(fam, tier):
     src = []
     skip = ("ds", "objs")
-    good = ["basic", "history", "nometa", "anon", "mixed", "strings", "single_full", "extremes", "waylocs", "changesets", "discussion"]
+    good = ["basic", "history", "nometa", "anon", "mixed", "strings", "single_full", "extremes", "waylocs", "waylocs_partial", "changesets", "discussion"]
     for ds in good:
         src.append(ball(fam, 1, {"ds": ds}))
         src.append(with_fixed(covering(fam, 3 if tier == "quick" else 4, skip=skip), {"ds": ds}))
@@ -409,7 +409,7 @@ def plan_opl(fam, tier):
     src = []
     full = ["basic", "history", "strings"] if tier == "quick" else \
         ["basic", "history", "strings", "nometa", "anon", "mixed", "single_full", "extremes", "waylocs", "changesets", "long"]
-    for ds in ["nometa", "anon", "mixed", "single_full", "extremes", "waylocs", "changesets", "long", "many", "cs_max", "outofrange", "id_max", "single", "empty"]:
+    for ds in ["nometa", "anon", "mixed", "single_full", "extremes", "waylocs", "waylocs_partial", "changesets", "long", "many", "cs_max", "outofrange", "id_max", "single", "empty"]:
         src.append(ball(fam, 2, {"ds": ds}))
         src.append(with_fixed(covering(fam, 3), {"ds": ds}))
     for ds in full:
